@@ -77,7 +77,9 @@ def run(ctx):
     # Layer 2: the pool algorithm as written, all interleavings: exactly once, join after completion, liveness
     models = [("c1f1", True, 900), ("c1f2", True, 900)]
     if not ctx.quick:
-        models += [("c1f3", False, 3000), ("c2f1", False, 3000), ("c2f1cap2", False, 3000)]
+        # c2f2_nr: two clients x two futures on a queue of one slot with one worker (no retirement): the smallest
+        # configuration in which two clients block on the full queue - it deadlocks without the FastSignal repair
+        models += [("c1f3", False, 3000), ("c2f1", False, 3000), ("c2f1cap2", False, 3000), ("c2f2_nr", False, 3000)]
     for name, replay, to in models:
         dot = os.path.join(ctx.work, name + ".dot") if replay else None
         r = vlib.tlc(SPECDIR, "FuturePoolImpl", "FuturePoolImpl_%s.cfg" % name, workers=8 if ctx.quick else 14, timeout=to, dump=dot, xmx="12g")
